@@ -129,6 +129,9 @@ type Ctx struct {
 	varBy map[string]*Term
 	UFs   map[string]*UFSig
 	UFOrd []string
+	// Injective names uninterpreted unary functions that are injective by
+	// construction of the model that introduced them.
+	Injective map[string]bool
 	True  *Term
 	False *Term
 }
@@ -141,6 +144,14 @@ func NewCtx() *Ctx {
 }
 
 func (c *Ctx) NumTerms() int { return c.n }
+
+// SetInjective declares the unary uninterpreted function name injective.
+func (c *Ctx) SetInjective(name string) {
+	if c.Injective == nil {
+		c.Injective = map[string]bool{}
+	}
+	c.Injective[name] = true
+}
 
 func (c *Ctx) key(t *Term) string {
 	var sb strings.Builder
@@ -422,6 +433,25 @@ func (c *Ctx) Eq(a, b *Term) *Term {
 	}
 	if a.IsConst() && b.Op == OIte && b.Args[1].IsConst() && b.Args[2].IsConst() {
 		return c.Ite(b.Args[0], c.Eq(b.Args[1], a), c.Eq(b.Args[2], a))
+	}
+	// f(x) == f(y)  <=>  x == y for uninterpreted functions declared injective
+	// (they carry an inverse axiom anyway; this keeps long chains out of the solver)
+	if a.Op == OApp && b.Op == OApp && a.Name == b.Name && len(a.Args) == 1 && len(b.Args) == 1 && c.Injective[a.Name] {
+		return c.Eq(a.Args[0], b.Args[0])
+	}
+	// x ^ k == y ^ k  <=>  x == y ;  x ^ k1 == x ^ k2  <=>  k1 == k2
+	if a.Op == OBvXor && b.Op == OBvXor {
+		for i := 0; i < 2; i++ {
+			for j := 0; j < 2; j++ {
+				if a.Args[i] == b.Args[j] {
+					return c.Eq(a.Args[1-i], b.Args[1-j])
+				}
+			}
+		}
+	}
+	// zext(x) == zext(y)  <=>  x == y  (same source width)
+	if a.Op == OZeroExt && b.Op == OZeroExt && a.Args[0].S == b.Args[0].S {
+		return c.Eq(a.Args[0], b.Args[0])
 	}
 	if a.ID > b.ID {
 		a, b = b, a
